@@ -68,7 +68,7 @@ def op_set_format(sim: Sim, a) -> str:
         if kind == "number":
             args, kw = "number", {"decimal_places": k % 5, "show_thousands_separator": bool(k % 2)}
         elif kind == "currency":
-            args, kw = "currency", {"currency": ["GBP", "USD", "EUR", "JPY"][k % 4], "decimal_places": k % 3}
+            args, kw = "currency", {"currency_code": ["GBP", "USD", "EUR", "JPY"][k % 4], "decimal_places": k % 3}
         elif kind == "percentage":
             args, kw = "percentage", {"decimal_places": k % 4}
         elif kind == "scientific":
